@@ -91,6 +91,64 @@ def param_setup(db, m, f):
     return None, None, None, None
 
 
+def branching_pair(db, rec, s, g, w):
+    from rules.c14 import _subst
+    thist = {"k": "rec", "name": rec, "size": db.records[rec]["size"]}
+
+    def run(setup):
+        m = bp.Machine(db)
+        setup(m)
+        this = m.new_region("this")
+        m.defaults[this] = "m"
+        a, w_, decl, kind = param_setup(db, m, s)
+        thisloc = bp.Loc(this, 0, thist)
+        m.call(s, thisloc, [a])
+        r = m.call(g, thisloc, [])
+        return result_bits(m, r)
+    try:
+        paths = bp.explore_paths(run, max_paths=32)
+    except bp.Unsupported as e:
+        return ("unknown", str(e))
+    n = 0
+    for pc, bits in paths:
+        if bits == "throw":
+            continue
+        n = max(n, len(bits))
+    if n == 0:
+        return ("bad", "the setter/getter pair throws on every path")
+    try:
+        for fill in (0, 1):
+            for v in range(1 << w):
+                def val(b, v=v, fill=fill):
+                    return ((v >> b[1]) & 1) if b[0] == "p" else fill
+                got = None
+                for pc, bits in paths:
+                    c = _subst(pc, val) if not isinstance(pc, int) else pc
+                    if c not in (0, 1):
+                        raise bp.Unsupported("path condition does not evaluate")
+                    if not c:
+                        continue
+                    if bits == "throw":
+                        got = "throw"
+                        break
+                    gv = 0
+                    for i, b in enumerate(bits):
+                        x = _subst(b, val) if not isinstance(b, int) else b
+                        if x not in (0, 1):
+                            raise bp.Unsupported("result bit does not evaluate")
+                        gv |= x << i
+                    got = gv
+                    break
+                if got == "throw":
+                    continue        # a range check: its threshold is R2's business on the straight-line form
+                if got != v:
+                    return ("bad", "get(set(%d)) == %s: the value set is silently replaced by another one (the setter branches on the value)"
+                            % (v, got))
+    except bp.Unsupported as e:
+        return ("unknown", str(e))
+    return ("ok", "get(set(v)) == v for all %d values on every one of the %d paths" % (1 << w, len(paths)))
+
+
 def result_bits(m, r):
     if isinstance(r, bp.Loc):
         w = bp.type_bits(r.t)
@@ -220,6 +278,19 @@ def run(db, rep, tier):
             if key in UNDECIDED_OK:
                 rep.undecided("R1-inverse", key, site, UNDECIDED_OK[key])
                 continue
+            if "branch on a value" in str(e) and w <= 12:
+                # a setter (or getter) that BRANCHES on the value: every path is enumerated and get(set(v)) is evaluated for
+                # every one of the 2^w argument values (object bits outside the field taken as 0 and as 1)
+                verdict = branching_pair(db, rec, s, g, w)
+                if verdict[0] == "ok":
+                    stats["header-field pairs decided"] += 1
+                    rep.ok("R1-inverse", key, site, verdict[1])
+                    rep.ok("R2-no-truncation", key, site, verdict[1])
+                    continue
+                if verdict[0] == "bad":
+                    stats["header-field pairs decided"] += 1
+                    rep.violation("R1-inverse", key, site, verdict[1])
+                    continue
             rep.analysis_broken("%s: accessor outside the E-BITS language: %s" % (key, e))
             continue
         except bp.Throw:
